@@ -340,6 +340,20 @@ def crash_points(run, labels, rng, partial_modes):
             if fk:
                 labels.mark_partial(fk, data)
             out.append(({"kill": k, "event": list(events[k]), "partial": mode if mode != "random" else cut}, s))
+    # killed right after a rename: the new name holds what was *on disk* under the old name at that moment
+    # (data still in a Python buffer of a file not yet closed is lost). For a file closed before it is moved
+    # into place this is the next recorded state; otherwise it is a crash state of its own.
+    for k, (ev, rel, extra) in enumerate(events):
+        if ev not in ("os.rename", "os.replace") or rel is None or extra is None or rel not in snaps[k].files:
+            continue
+        s = snaps[k].copy()
+        s.files[extra] = s.files.pop(rel)
+        if snaps[k + 1].files.get(extra) == s.files[extra]:
+            continue
+        fk = file_key(extra)
+        if fk:
+            labels.mark_partial(fk, s.files[extra])
+        out.append(({"kill": k, "event": list(events[k]), "partial": "moved-before-flushed"}, s))
     return out
 
 
